@@ -52,6 +52,9 @@ def enum_decl(ed: EnumDef, derive_debug=False, doc=False, vis='pub'):
             elif d % 2 == 1:
                 pre += "#[cfg(all())] " if d % 4 == 1 else "/** doc before cfg */ #[cfg(all())] #[cfg(not(any()))] "
         lit = fmt_disc(d)
+        if live and not ed.alias and not doc:
+            # attributes other than cfg on variants are passed through (and must not confuse the cfg handling)
+            pre += ("", "#[allow(dead_code)] ", "#[doc(hidden)] ", "")[(d + ed.n) % 4]
         if live:
             vs.append(f"    {pre}V{d:x} = {lit},")
         else:
@@ -131,12 +134,13 @@ def elem_ty(f: Field):
     if k == 'i':
         return f"i{w}"
     q = "self::" if f.qualified else ""
+    a = "A" if getattr(f, "type_alias", False) else ""       # `pub type AX2 = X2;`
     if k == 'e':
-        return q + f.enum.name
+        return q + a + f.enum.name
     if k == 'o':
-        return f"{getattr(f, 'opt_path', '')}Option<{q}{f.enum.name}>"
+        return f"{getattr(f, 'opt_path', '')}Option<{q}{a}{f.enum.name}>"
     if k == 'c':
-        return q + inner_name(f.inner_n)
+        return q + a + inner_name(f.inner_n)
     raise ValueError(k)
 
 
@@ -190,7 +194,7 @@ def attr_text(f: Field, idx_for_spelling=0):
                 parts.append(f"{lo}..={lo + l - 1}")
         a = "bits([" + ", ".join(parts) + "]"
     head, rng = a.split("(", 1)
-    parts = {'r': rng, 'a': f.access or None,
+    parts = {'r': rng, 'a': (getattr(f, "access_split", "") or f.access) or None,
              's': ((f"stride = {f.arr[1]}" if f.stride_sep == '=' else f"stride: {f.arr[1]}") if (f.arr and f.stride_explicit) else None)}
     order = getattr(f, "arg_order", "ras") or "ras"
     trailing = "," if order.endswith(",") else ""
@@ -686,8 +690,10 @@ def shard_source(structs, enums_extra=(), enum_adapters="", spans=None):
     out = [SHARD_PRELUDE.rstrip("\n")]
     for name in sorted(enums):
         out.append(enum_decl(enums[name], derive_debug=True))
+        out.append(f"pub type A{name} = {name};")
     for n, _ in sorted(inners):
         out.append(inner_decl(n, debug=True))
+        out.append(f"pub type A{inner_name(n)} = {inner_name(n)};")
     twins = []
     line = sum(x.count("\n") + 1 for x in out)
     for s in structs:
